@@ -80,11 +80,12 @@ func scopesOf(b *buildgen.Build, e buildgen.Entry) []string {
 
 // DepStats says what the comparison saw.
 type DepStats struct {
-	Expected        int // required entries
-	Matched         int // required entries found at their position
-	OptionalMatched int // map-notation entries extracted correctly
-	SetAside        int // observed entries equal to coordinates of another section
-	Skipped         int // other-notation entries planted
+	Expected        int  // required entries
+	Matched         int  // required entries found at their position
+	OptionalMatched int  // map-notation entries extracted correctly
+	SetAside        int  // observed entries equal to coordinates of another section
+	Skipped         int  // other-notation entries planted
+	CopyReadTwice   bool // the pom copy in the build output was reported as a second pom (accepted)
 }
 
 func setAside(b *buildgen.Build, observed []Dep) (rest []Dep, n int) {
@@ -297,7 +298,29 @@ func ExpectedUnused(p *buildgen.Project) []Dep {
 // files of one project are enumerated, so the report is split by the file that declares each entry (artifact ids
 // of the two files are disjoint by construction) and each part is compared, in order, with that file's expected
 // sub-list; any interleaving of the two parts is accepted. An entry that neither file declares is a mismatch.
+//
+// Project with a copy of its pom in the build output (Project.OutputCopy): whether target/classes/META-INF/maven/
+// .../pom.xml declares dependencies of the project is not decided by the statement. Accepted are exactly the two
+// readings: the copy is ignored (the report is the expected sub-list) or it is read as a second pom with the same
+// content (the report is the expected sub-list twice, one after the other).
 func CheckUnused(p *buildgen.Project, observed []Dep) ([]DepMismatch, DepStats) {
+	if p.Second == nil && p.OutputCopy != "" {
+		mm, st := checkUnusedOf(p, p.Build, observed, "with-output-copy/")
+		if len(mm) == 0 {
+			return nil, st
+		}
+		for i := 1; i < len(observed); i++ {
+			m1, s1 := checkUnusedOf(p, p.Build, observed[:i], "")
+			if len(m1) > 0 {
+				continue
+			}
+			if m2, _ := checkUnusedOf(p, p.Build, observed[i:], ""); len(m2) == 0 {
+				s1.CopyReadTwice = true
+				return nil, s1
+			}
+		}
+		return mm, st
+	}
 	if p.Second == nil {
 		return checkUnusedOf(p, p.Build, observed, "")
 	}
